@@ -43,6 +43,18 @@ def run(ctx):
     pools, mdl, rng = env.pools, env.mdl, ctx.rng
     if ctx.shard == 0:
         witnesses(ctx, env, mon)
+    # one shard runs under a decimal context a program may well have installed (9 or 12 significant digits, traps
+    # on or off, another rounding mode): Decimal magnitudes are then rounded to that precision, which is far inside the
+    # statement's tolerance, and must still come out as the right value
+    decimal_context = None
+    if ctx.nshards > 2 and ctx.shard == 2:
+        import decimal
+        later_context = rng.choice([decimal.Context(prec=12, traps=[]), decimal.Context(prec=7, traps=[]), decimal.BasicContext,
+                                    decimal.Context(prec=40, rounding=decimal.ROUND_DOWN)]).copy()
+        decimal_context = decimal.ExtendedContext.copy()   # 9 digits, nothing trapped; the second half of the run uses later_context
+        decimal.setcontext(decimal_context)
+        ctx.count("shards_under_a_non_default_decimal_context")
+        ctx.cov["decimal_contexts"] = [repr(decimal_context)[:160], repr(later_context)[:160]]
     n = ctx.scale(16000, 1_000_000)
     plans = set()
     modules_hit = {}
@@ -50,6 +62,8 @@ def run(ctx):
     for d in env.b.defined:
         unit_mod.setdefault(d["obj"], d["mod"])
     for i in range(n):
+        if decimal_context is not None and i == n // 2:
+            decimal.setcontext(later_context)
         hostile = rng.choice([0.0, 0.35, 0.8])
         factors = pools.random_factors(rng, max_factors=3, max_exp=3, hostile=hostile)
         target = pools.same_dimension_alternative(rng, factors, compose_prob=rng.choice([0.0, 0.3, 0.7]), keep_dimensionless_choice=True)
@@ -59,7 +73,7 @@ def run(ctx):
         except Exception as e:
             ctx.count(f"build_failed/{type(e).__name__}")
             continue
-        mag = pools.magnitude(rng)
+        mag = pools.magnitude(rng, kind="decimal" if decimal_context is not None and rng.random() < 0.7 else None)
         ctx.count("evaluations")
         mon.last = None
         try:
